@@ -74,7 +74,7 @@ class C16(E1Check):
             return False
         return True
 
-    def is_probe(self, op):
+    def is_std_probe(self, op):
         return op[0] == "insert_multiple" and len(op[1]) == 3
 
     def apply(self, world, op, T):
